@@ -63,10 +63,10 @@ def unroll_corpus(tier):
         yield space.to_desc(0, gates, consts=("0", "1"), outputs="sinks")   # no primary input at all
 
 
-def check_unroll(acc, desc, state_io, n):
+def check_unroll(acc, desc, state_io, n, variant=None):
     import circuitgraph as cg
 
-    case = {"kind": "unroll", "desc": desc, "state_io": state_io, "n": n}
+    case = {"kind": "unroll", "desc": desc, "state_io": state_io, "n": n, "variant": variant}
     c = space.build(desc)
     ins = sorted(c.inputs())
     outs = sorted(c.outputs())
@@ -77,7 +77,7 @@ def check_unroll(acc, desc, state_io, n):
         return None
     acc.transitions += 1
     try:
-        uc, io_map = cg.tx.unroll(c, n, dict(state_io))
+        c, (uc, io_map) = space.call_with_history(desc, lambda x: cg.tx.unroll(x, n, dict(state_io)), variant)
     except Exception as e:  # noqa: BLE001
         acc.violation("unroll", f"raises:{common.exc_name(e)}", case, repr(e))
         return None
@@ -136,6 +136,10 @@ def run_unroll(job, acc):
                 acc.states += 1
                 if r:
                     acc.nontrivial += 1
+                if (_idx // job["of"]) % 4 == 0 and n == 2:
+                    for v in space.VARIANTS[1:]:
+                        acc.states += 1
+                        check_unroll(acc, desc, sio, n, variant=v)
         acc.sample({"desc": desc})
         if acc.out_of_time():
             break
@@ -210,7 +214,23 @@ def check_seq(acc, desc, ftype, flops, opts, n, repeat=False):
             "repeat": repeat}
     c = space.build(desc)
     init_before = dict(init) if isinstance(init, dict) else init
-    if repeat:
+    if repeat in ("stale", "alias"):
+        # the identical call made earlier on the same object: before the circuit's last in-place edit ("stale"),
+        # or with its result scrambled by the caller ("alias")
+        finish = None
+        if repeat == "stale":
+            c2, finish = space.build_pre(desc)
+            c = c2 if c2 is not None else c
+        try:
+            first = cg.tx.sequential_unroll(c, n, F["d"], F["q"], ignore_pins=ignore, add_flop_outputs=add_out,
+                                            initial_values=init, remove_unloaded=rem_unl)
+            if repeat == "alias":
+                space.scramble(first)
+        except Exception:  # noqa: BLE001
+            pass
+        if finish is not None:
+            finish()
+    elif repeat:
         # an earlier call on the SAME circuit object (same BlackBox objects, same initial_values dict) must not matter
         try:
             cg.tx.sequential_unroll(c, 1, F["d"], F["q"], ignore_pins=ignore, initial_values=init)
@@ -354,6 +374,9 @@ def run_seq(job, acc):
                 if rich and n == 2:
                     acc.states += 1
                     check_seq(acc, desc, ftype, flops, opts, n, repeat=True)
+                    if (idx // job["of"]) % 16 == 0:
+                        check_seq(acc, desc, ftype, flops, opts, n, repeat="stale")
+                        check_seq(acc, desc, ftype, flops, opts, n, repeat="alias")
         acc.sample({"desc": desc, "ftype": ftype})
         if acc.out_of_time():
             break
@@ -370,7 +393,7 @@ def replay(case, job):
     common.setup_paths()
     acc = Acc(job)
     if case["kind"] == "unroll":
-        check_unroll(acc, case["desc"], case["state_io"], case["n"])
+        check_unroll(acc, case["desc"], case["state_io"], case["n"], variant=case.get("variant"))
     else:
         o = case["opts"]
         check_seq(acc, case["desc"], case["ftype"], case["flops"], (o[0], o[1], o[2], o[3]), case["n"], repeat=case.get("repeat", False))
